@@ -375,6 +375,11 @@ def rule_format_coherence(prog, C, module, clsname, label, rule="R-C04-b", cfgs=
                     if validity is None:
                         C.add(rule, VIOLATED, where, cons, "the pair format returns a single array", {"inputs": "return_missing_as=(0, False)"})
                         continue
+                    nulls = (m.fields.get("null"), T("sub", tm.param("return_missing_as"), tm.const(0)), tm.param("return_missing_as"))
+                    if validity.op == "cmp" and validity.args[0] in ("!=", "==") and any(a == vals for a in validity.args[1:]) and any(a in nulls for a in validity.args[1:]):
+                        C.add(rule, VIOLATED, where, cons, "the validity is recomputed by comparing the RETURNED values (after the sentinel was written) with the sentinel: a sentinel that equals a real cell value "
+                              "marks that cell missing, and a NaN sentinel compares unequal to itself so no cell is missing", {"inputs": "return_missing_as=(1, False): every cell whose value is 1 is reported missing; (nan, False): empty cells are reported valid"})
+                        continue
                     if mask is None:
                         # no sentinel written at all
                         if label.startswith("valid_count") and False:
@@ -784,6 +789,8 @@ def _layout(t, seen=None):
         nm = tm.callee_name(t) or ""
         if nm in (".copy", ".astype", ".view") or nm in ("numpy.asarray", "numpy.array", "numpy.ascontiguousarray", "numpy.isnan", "numpy.logical_not", "numpy.abs"):
             return _layout(t.args[0].args[0] if nm.startswith(".") else t.args[1][0])
+        if nm in ("numpy.all", "numpy.any", ".all", ".any") and tm.kwarg(t, "axis") is not None:
+            return "R"  # a per-column validity reduced to complete rows (R-C18-c decides the axis)
         if nm == "numpy.transpose" and len(t.args[1]) == 1:
             x = _layout(t.args[1][0])
             return {"RC": "CR", "CR": "RC"}.get(x, x)
